@@ -241,6 +241,14 @@ def step (s : S) : List String → S × String
       let seq := showSeq r.2
       ({ s with st := r.1, round := none },
         s!"{showState s.cfg r.1 (evsOf r.2)} seq={if seq.isEmpty then "-" else ",".intercalate seq}")
+  | ["tv", spec] =>
+    -- a template: labels separated by '.', pieces by ',', a piece is R or the length of a literal
+    let labels : Tmpl := (spec.splitOn ".").map fun l =>
+      (l.splitOn ",").filterMap fun seg =>
+        if seg == "R" then some Seg.rnd
+        else if seg == "" then none
+        else some (Seg.lit (List.replicate (nat! seg) 97))
+    (s, s!"{showB (tmplAccepted labels)} old={showB (tmplAcceptedOld labels)}")
   | ["x", n, u, t] =>
     let r := exchange (net n) reqId reqQ (wire 1 u) (wire 2 t)
     let x := match r.1 with
